@@ -99,6 +99,43 @@ def lerp (C : Carrier α) (pts : List (α × α)) (x : α) : Option α :=
     else if C.cmp .ge x (lastD p0 rest).1 then some (lastD p0 rest).2
     else some (lerpIn C p0 rest x)
 
+/-! #### (wave 6) probe rows of the REAL generated `LERP` and a segment search with bounded correction -/
+
+/-- one call of the real `LERP` on an integer table at an integer abscissa with an integral result -/
+structure LerpRow where
+  pts : List (Int × Int)
+  x : Int
+  y : Int
+
+def intC : Carrier Int where
+  bin := fun o a b => match o with | .add => a + b | .sub => a - b | .mul => a * b | .div => a / b
+  cmp := fun c a b => match c with | .lt => a < b | .le => a ≤ b | .gt => a > b | .ge => a ≥ b | .eq => a == b
+  int := id
+
+/-- every probed value is what the model's `lerp` gives (exact: integer tables with integral slopes), and the rows hold a
+table with at least 5 points probed strictly inside its range -/
+def lerpRowsOK (rows : List LerpRow) : Bool :=
+  rows.all (fun r => lerp intC r.pts r.x == some r.y) &&
+    rows.any (fun r => decide (r.pts.length ≥ 5) && (match r.pts with
+      | [] => false
+      | p0 :: rest => decide (p0.1 < r.x) && decide (r.x < (lastD p0 rest).1)))
+
+/-- a `LERP` that guesses the segment index proportionally, `⌊(x − x₀)/(xₙ − x₀)·n⌋`, and corrects it by at most one
+(seeded defect `C04r4-lerp-proportional-segment`) -/
+def lerpBounded (pts : List (Int × Int)) (x : Int) : Option Int :=
+  match pts with
+  | [] => none
+  | p0 :: rest =>
+    let last := lastD p0 rest
+    if x ≤ p0.1 then some p0.2
+    else if x ≥ last.1 then some last.2
+    else
+      let i0 := ((x - p0.1) * (pts.length - 1 : Nat) / (last.1 - p0.1)).toNat
+      let i := if x < (pts.getD i0 p0).1 then i0 - 1 else if x ≥ (pts.getD (i0 + 1) p0).1 then i0 + 1 else i0
+      let a := pts.getD i p0
+      let b := pts.getD (i + 1) p0
+      some (a.2 + (b.2 - a.2) * (x - a.1) / (b.1 - a.1))
+
 /-! ### Reference semantics: explicit Euler on the grid index -/
 
 def evalEx (C : Carrier α) (dtv tnow : α) (look : Nat → Option α) : Ex α → Option α
